@@ -14,7 +14,7 @@ F64_EDGE = [0x0000000000000000, 0x8000000000000000, 0x0000000000000001, 0x800000
             0x4340000000000000, 0x4340000000000001, 0xc340000000000001, 0x43e0000000000000, 0x3fb999999999999a,
             0x39b4484bfeebc2a0, 0x42dc12218377de6b, 0x3ff8000000000000, 0x4004000000000000, 0x40f86a0000000000]
 SPECIAL = [0x7c, 0x5c, 0x00, 0x61, 0x62, 0x01, 0xff, 0x80]
-ZOPS = ("u64b", "cblk", "bb", "dict", "tag", "f64", "dec-u64b", "dec-cblk", "dec-bb", "dec-bbt", "dec-dict",
+ZOPS = ("u64b", "cblk", "bb", "bbt", "dict", "tag", "f64", "dec-u64b", "dec-cblk", "dec-bb", "dec-bbt", "dec-dict",
         "dec-dictv", "dec-tag")
 
 
@@ -170,6 +170,75 @@ def gen_float_bits(rng):
         else:
             out.append(rng.getrandbits(64))
     return k, out
+
+
+HOSTILE = [b"\\", b"|", b"\\|", b"|\\", b"\\\\", b"||", b"a\\", b"a|", b"\\a", b"|a", b"C:\\temp\\log.txt", b"^\\d+\\.\\d+$",
+           b"dir\\", b"x\\|y", b"a|b", b"\x00", b"\x00|\x00\\", b"", b"plain", b"\xff\xfe", b"n", b"null"]
+
+
+def hostile(rng):
+    r = rng.random()
+    if r < 0.55:
+        return rng.choice(HOSTILE)
+    if r < 0.9:
+        return bytes(rng.choice([0x5c, 0x7c, 0x5c, 0x7c, 0x61, 0x00, 0x62]) for _ in range(rng.randint(0, 8)))
+    return rbytes(rng, rng.choice([1, 17, 300]))
+
+
+def gen_tv(rng):
+    """one tag value through an engine's own write-path encoding and query-path decoding"""
+    eng = rng.choice("mst")
+    t = rng.choice(["str", "bin", "int", "sarr", "sarr", "sarr", "sarr", "iarr", "null"] + (["ts"] if eng == "t" else []))
+    if t in ("str", "bin"):
+        return "tv %s %s %s" % (eng, t, hx(hostile(rng)))
+    if t == "int":
+        return "tv %s int %d" % (eng, rng.choice(I64_EDGE) if rng.random() < 0.5 else rng.randrange(MIN64, MAX64 + 1))
+    if t == "sarr":
+        # no empty arrays here: "array without elements reads back as null" is C01's F10 class, out of scope for C11
+        return "tv %s sarr %s" % (eng, " ".join(hx(hostile(rng)) for _ in range(rng.choice([1, 1, 2, 2, 3, 4, 6]))))
+    if t == "iarr":
+        return "tv %s iarr %s" % (eng, " ".join(str(rng.choice(I64_EDGE) if rng.random() < 0.5 else rng.randrange(MIN64, MAX64 + 1))
+                                               for _ in range(rng.randint(1, 8))))
+    if t == "ts":
+        # seconds >= 0 only: a pre-epoch instant with a fraction is read back as (sec+1, nanos-1e9), noted in the design
+        return "tv t ts %d %d" % (rng.choice([0, 1, 1700000000, 9000000000, rng.randrange(0, 9 * 10**9)]),
+                                  rng.choice([0, 1, 999999999, rng.randrange(10**9)]))
+    return "tv %s null %s" % (eng, rng.choice(["str", "bin", "int", "sarr", "iarr"] + (["ts"] if eng == "t" else [])))
+
+
+def gen_bbt(rng):
+    """EncodeBytesBlock + tail, decoded by a zero-value decoder's DecodeWithTail: all-empty / all-nil / mixed blocks"""
+    n = rng.choice([1, 1, 2, 3, 5, 9])
+    k = rng.choice(["all-empty", "all-empty", "all-nil", "nil-empty", "general", "one-nonempty"])
+    if k == "all-empty":
+        its = [b""] * n
+    elif k == "all-nil":
+        its = [None] * n
+    elif k == "nil-empty":
+        its = [rng.choice([None, b""]) for _ in range(n)]
+    elif k == "one-nonempty":
+        its = [rng.choice([None, b""]) for _ in range(n)]
+        its[rng.randrange(n)] = rbytes(rng, rng.randint(1, 5))
+    else:
+        its = gen_items(rng, 8)
+    return "bbt %s %s" % (hx(rbytes(rng, rng.choice([0, 0, 1, 3]))), " ".join(hx(i) for i in its))
+
+
+def tv_expect(f):
+    t, a = f[2], f[3:]
+    if t == "str":
+        return ["S" + a[0]]
+    if t == "bin":
+        return ["B" + a[0]]
+    if t == "int":
+        return ["I" + a[0]]
+    if t == "sarr":
+        return ["SA"] + a
+    if t == "iarr":
+        return ["IA"] + a
+    if t == "ts":
+        return ["T%s:%s" % (a[0], a[1])]
+    return ["N"]
 
 
 def i64_to_tag(v):
@@ -440,6 +509,13 @@ class C11(vlib.Spec):
     def rt_cases(self, rng, n):
         out = []
         for _ in range(n):
+            q = rng.random()
+            if q < 0.09:
+                out.append(gen_tv(rng))
+                continue
+            if q < 0.115:
+                out.append(gen_bbt(rng))
+                continue
             r = rng.random()
             if r < 0.22:
                 _, vs = gen_i64_list(rng)
@@ -594,6 +670,8 @@ class C11(vlib.Spec):
         f = line.split(" ", 2)
         if f[0] in ("tag", "dec-tag"):
             return f[0] + "-" + f[1]
+        if f[0] == "tv":
+            return "tv-%s-%s" % (f[1], f[2].split(" ", 1)[0])
         return f[0]
 
     def nontrivial(self, line, g):
@@ -627,7 +705,11 @@ class C11(vlib.Spec):
             self.sub[op + ":" + ("zstd" if " ; Z" in line else "plain")] += 1
         elif op.startswith("dec-") and o:
             self.sub["dec:" + o[0].split("-")[0]] += 1
-        if op in ("vi64", "vu64", "u64b", "bb", "bp", "cblk"):
+        if op == "tv":
+            want = tv_expect(f)
+            return None if o[1:] == want else ("violation", "%s tag value (%s) written %s read back %s (stored %s)"
+                                               % ({"m": "measure", "s": "stream", "t": "trace"}[a[0]], a[1], want[:8], o[1:9], o[0][:80]))
+        if op in ("vi64", "vu64", "u64b", "bb", "bbt", "bp", "cblk"):
             return None if o[-1] == "=" and len(o) == 2 else ("violation", "%s round trip: %s" % (op, g[:200]))
         if op == "i64l":
             return None if o[-1] == "=" and len(o) == 4 else ("violation", "int64 list round trip (mode %s): %s" % (o[1:2], g[:200]))
